@@ -517,3 +517,66 @@ mod if_alloc {
 
 #[cfg(feature = "alloc")]
 pub use self::if_alloc::*;
+
+#[cfg(all(futures_intrusive_verif, feature = "alloc"))]
+pub(crate) mod verif_hooks {
+    use super::*;
+    use crate::verif::{snap_list_node, waker_id, NodeSnap, NO_VALUE};
+
+    pub(crate) fn describe_recv(
+        entry: &RecvWaitQueueEntry,
+    ) -> (u8, Option<usize>, u64) {
+        let tag = match entry.state {
+            RecvPollState::Unregistered => 0,
+            RecvPollState::Registered => 1,
+            RecvPollState::Notified => 2,
+        };
+        (tag, waker_id(&entry.task), 0)
+    }
+
+    pub(crate) fn describe_send<T>(
+        entry: &SendWaitQueueEntry<T>,
+        tag_of: &dyn Fn(&T) -> u64,
+    ) -> (u8, Option<usize>, u64) {
+        let tag = match entry.state {
+            SendPollState::Unregistered => 0,
+            SendPollState::Registered => 1,
+            SendPollState::SendComplete => 2,
+        };
+        (
+            tag,
+            waker_id(&entry.task),
+            entry.value.as_ref().map_or(NO_VALUE, |v| tag_of(v)),
+        )
+    }
+
+    impl<'a, MutexType, T> ChannelReceiveFuture<'a, MutexType, T> {
+        /// Describes the wait node of this future
+        pub fn verif_node(&self) -> NodeSnap {
+            snap_list_node(&self.wait_node, &describe_recv)
+        }
+    }
+
+    impl<'a, MutexType, T> ChannelSendFuture<'a, MutexType, T> {
+        /// Describes the wait node of this future. `extra` is the tag of the
+        /// value which is still stored inside the future.
+        pub fn verif_node(&self, tag_of: &dyn Fn(&T) -> u64) -> NodeSnap {
+            snap_list_node(&self.wait_node, &|e| describe_send(e, tag_of))
+        }
+    }
+
+    impl<MutexType, T> shared::ChannelReceiveFuture<MutexType, T> {
+        /// Describes the wait node of this future
+        pub fn verif_node(&self) -> NodeSnap {
+            snap_list_node(&self.wait_node, &describe_recv)
+        }
+    }
+
+    impl<MutexType, T> shared::ChannelSendFuture<MutexType, T> {
+        /// Describes the wait node of this future. `extra` is the tag of the
+        /// value which is still stored inside the future.
+        pub fn verif_node(&self, tag_of: &dyn Fn(&T) -> u64) -> NodeSnap {
+            snap_list_node(&self.wait_node, &|e| describe_send(e, tag_of))
+        }
+    }
+}
